@@ -652,3 +652,67 @@ Example C07_gcm_nonce_example :
   hc_cipher (o_hc (ex_out ex_gcm None)) = CipherAEAD [1; 2; 3]%N [4; 5; 6; 7]%N /\
   hc_seq (o_hc (ex_out ex_gcm None)) = be64 5.
 Proof. vm_compute. repeat split; reflexivity. Qed.
+
+(* ======== 10. fresh explicit IVs over a whole history (CBC) ============================================== *)
+
+(* Any history of Write calls of a sender with the CBC suite (any number of calls and records, also a history
+   that ends in a failed Write): the explicit IVs on the wire are, in order, exactly what the sender consumed of
+   config.rand() - record j of the history carries block j of the stream (so no block is used for two records,
+   and no record carries anything but its own fresh block: no IV is derived from an earlier record, a pool that
+   ran dry or a reused buffer) - and they are pairwise distinct whenever the blocks the entropy source
+   delivered are (the only premise about the source; for a uniform source two of n 128-bit blocks collide with
+   probability <= n^2 / 2^129). *)
+Theorem C07_cbc_ivs_fresh_over_history :
+  forall P, prims_ok P ->
+  forall fuel cw writes cw' recs err,
+    cbc_sender cw -> write_calls P fuel cw writes = Ok (cw', recs, err) ->
+    concat (map (explicit_iv P) recs) ++ o_rand cw' = o_rand cw /\
+    map (explicit_iv P) recs = stream_blocks (p_bs P) (length recs) (o_rand cw) /\
+    (forall j r, nth_error recs j = Some r ->
+       explicit_iv P r = firstn (p_bs P) (skipn (j * p_bs P) (o_rand cw))) /\
+    (NoDup (stream_blocks (p_bs P) (length recs) (o_rand cw)) -> NoDup (map (explicit_iv P) recs)).
+Proof. intros P H. exact (cbc_ivs_fresh_over_history P H). Qed.
+Print Assumptions C07_cbc_ivs_fresh_over_history.
+
+Theorem C07_cbc_ivs_fresh_over_history_sm4 :
+  forall fuel cw writes cw' recs err,
+    cbc_sender cw -> write_calls sm4_prims fuel cw writes = Ok (cw', recs, err) ->
+    map (explicit_iv sm4_prims) recs = stream_blocks 16 (length recs) (o_rand cw) /\
+    (NoDup (stream_blocks 16 (length recs) (o_rand cw)) -> NoDup (map (explicit_iv sm4_prims) recs)).
+Proof.
+  intros fuel cw writes cw' recs err Hs Hw.
+  destruct (cbc_ivs_fresh_over_history sm4_prims sm4_prims_ok fuel cw writes cw' recs err Hs Hw) as [_ [H1 [_ H2]]].
+  split; [exact H1|exact H2].
+Qed.
+Print Assumptions C07_cbc_ivs_fresh_over_history_sm4.
+
+(* non-vacuity: a history of 20 Write calls (10 of one byte, 10 of two bytes: 1/n-1 split) = 30 records on one toy
+   CBC connection, more than a pool of 16: the hypotheses hold, the run succeeds, the 30 explicit IVs are the
+   first 30 blocks of the stream and pairwise distinct *)
+Definition ex_long_rand : list N := map (fun i => N.of_nat ((i + i / 256) mod 256)) (seq 0 600).
+Definition ex_long_out :=
+  mkOut (mkHC false VersionGMSSL (CipherCBC [1; 2; 3]%N []) (Some [9; 9]%N) (be64 1)) VersionGMSSL 0 0 false ex_long_rand false.
+Definition ex_long_writes : list (list N) :=
+  map (fun i => if i mod 2 =? 0 then [N.of_nat i] else [N.of_nat i; 7%N]) (seq 0 20).
+Definition ex_long_records : list (list N) :=
+  match write_calls toy_prims 10 ex_long_out ex_long_writes with Ok (_, recs, _) => recs | _ => [] end.
+
+Example C07_cbc_iv_history_example :
+  cbc_sender ex_long_out /\
+  (exists cw', write_calls toy_prims 10 ex_long_out ex_long_writes = Ok (cw', ex_long_records, false)) /\
+  length ex_long_records = 30 /\
+  map (explicit_iv toy_prims) ex_long_records = stream_blocks (p_bs toy_prims) 30 ex_long_rand /\
+  NoDup (stream_blocks (p_bs toy_prims) 30 ex_long_rand) /\
+  NoDup (map (explicit_iv toy_prims) ex_long_records).
+Proof.
+  assert (Hnd : NoDup (stream_blocks (p_bs toy_prims) 30 ex_long_rand)).
+  { assert (E : nodup (list_eq_dec N.eq_dec) (stream_blocks (p_bs toy_prims) 30 ex_long_rand)
+                = stream_blocks (p_bs toy_prims) 30 ex_long_rand) by (vm_compute; reflexivity).
+    rewrite <- E. apply NoDup_nodup. }
+  assert (Hm : map (explicit_iv toy_prims) ex_long_records = stream_blocks (p_bs toy_prims) 30 ex_long_rand)
+    by (vm_compute; reflexivity).
+  split; [split; reflexivity|].
+  split; [eexists; vm_compute; reflexivity|].
+  split; [vm_compute; reflexivity|].
+  split; [exact Hm|]. split; [exact Hnd|]. rewrite Hm. exact Hnd.
+Qed.
